@@ -205,11 +205,19 @@ def ex_region(ctx, lat_case, seed=0):
     ctx.current_case = rc
     reg, model, origins = c01.build_region(lat_case)
     ctx.mon("roundtrip:region-dict", 1)
-    ok, back, tb = ctx.call(lambda: CartesianGrid2D.from_dict(reg.to_dict()))
+    d = reg.to_dict()
+    ok, back, tb = ctx.call(lambda: CartesianGrid2D.from_dict(d))
     ctx.count(1)
     tags = {"region": True, "single_row_or_column": bool(lat_case["nx"] == 1 or lat_case["ny"] == 1)}
     if not ok:
         ctx.violate("rebuilding a region from its dictionary raised", rc, observed=repr(back), tb=tb, tags=tags)
+        return
+    # history: the same dictionary object is used for a second rebuild (and, half of the time, after a JSON text round trip of it)
+    import json as _json
+    ok2, back2, tb2 = ctx.call(lambda: CartesianGrid2D.from_dict(d if seed % 2 else _json.loads(_json.dumps(d))))
+    if not ok2:
+        ctx.violate("rebuilding a region from its dictionary raised", rc, observed=repr(back2), tb=tb2,
+                    tags=dict(tags, history="second rebuild from the same dictionary object" if seed % 2 else "rebuild from the JSON text of the dictionary"))
         return
     rng = numpy.random.default_rng([seed, 18])
     lon, lat = c01.probes_for(model, rng, per_axis=40)
@@ -223,6 +231,10 @@ def ex_region(ctx, lat_case, seed=0):
     ins = ~m0
     if ins.any():
         i0, i1 = reg.get_index_of(lon[ins], lat[ins]), back.get_index_of(lon[ins], lat[ins])
+        ok3, i2, tb3 = ctx.call(back2.get_index_of, lon[ins], lat[ins])
+        if not ok3 or not numpy.array_equal(i0, i2):
+            ctx.violate("the region rebuilt a second time from the same dictionary assigns points to different cell indices", rc,
+                        observed=repr(i2)[:120], expected={"original": i0[:5]}, tags=dict(tags, history="second rebuild"))
         if not numpy.array_equal(i0, i1):
             k = numpy.nonzero(i0 != i1)[0][:5]
             ctx.violate("the region rebuilt from its dictionary assigns points to different cell indices", rc,
